@@ -28,6 +28,8 @@ import (
 type c19Scn struct {
 	Kind    string   `json:"kind"`    // mem | tcp | ws | inproc
 	Actions []string `json:"actions"` // send fault:<kind> down up push watch
+	// Unbuffered: the client is configured with a channel buffer size of 0 (every inbound stream is a pure hand-off)
+	Unbuffered bool `json:"unbuffered,omitempty"`
 }
 
 type c19Ob struct {
@@ -374,6 +376,9 @@ func c19Run(scn *c19Scn) c19Obs {
 	cfg := lime.NewClientConfig()
 	cfg.Node = lime.Node{Identity: lime.Identity{Name: "cli", Domain: "verif.test"}, Instance: "i1"}
 	cfg.ChannelBufferSize = 4
+	if scn.Unbuffered {
+		cfg.ChannelBufferSize = 0
+	}
 	cfg.NewTransport = factory
 	cfg.Authenticator = lime.GuestAuthenticator
 	mux := &lime.EnvelopeMux{}
@@ -695,9 +700,17 @@ func runC19(env *Env) error {
 		// (not over real sockets: there the first write after the peer closed is accepted by the kernel, and a receiver
 		// held up by full buffers has not read the end of the stream yet - nothing the library could know)
 		c19Scn{Kind: "mem", Actions: []string{"floodpush", "down", "fault:eof", "send", "send", "up", "send"}})
+	// a client without buffers whose session the server ends (or loses)
+	for _, k := range kinds {
+		scns = append(scns,
+			c19Scn{Kind: k, Unbuffered: true, Actions: []string{"push", "fault:finish", "push", "send", "push"}},
+			c19Scn{Kind: k, Unbuffered: true, Actions: []string{"fault:fail", "send", "push", "fault:eof", "push", "send"}})
+	}
 	nrand := env.Pick(24, 160)
 	for i := 0; i < nrand; i++ {
-		scns = append(scns, genC19(env, kinds[i%len(kinds)], 5+env.Rng.Intn(env.Pick(6, 14))))
+		sc := genC19(env, kinds[i%len(kinds)], 5+env.Rng.Intn(env.Pick(6, 14)))
+		sc.Unbuffered = i%5 == 4
+		scns = append(scns, sc)
 	}
 	cases := make([]c19Case, len(scns))
 	sem := make(chan struct{}, 6)
@@ -716,6 +729,9 @@ func runC19(env *Env) error {
 		c := &cases[i]
 		env.Add(c.coq(), c)
 		env.Count("transport=" + c.Scn.Kind)
+		if c.Scn.Unbuffered {
+			env.Count("client-buffer=0")
+		}
 		nf := 0
 		for _, a := range c.Scn.Actions {
 			if strings.HasPrefix(a, "fault:") {
